@@ -5,6 +5,7 @@ use std::ops::Range;
 
 use moc::deser::fits::{from_fits_ivoa, MocIdxType, MocQtyType, MocType, RangeMocIterFromFits};
 use moc::idx::Idx;
+use moc::moc::{CellMOCIntoIterator, CellOrCellRangeMOCIntoIterator};
 use moc::moc::builder::fixed_depth::OwnedOrderedFixedDepthCellsToRanges;
 use moc::moc::range::RangeMOC;
 use moc::moc::{
@@ -123,8 +124,8 @@ impl<'a, T: Idx, Q: MocQty<T>> RangeMOCIterator<T> for BoxIt<'a, T, Q> {
   }
 }
 
-pub const N_KINDS: u64 = 6;
-pub const KIND_NAMES: [&str; 6] = ["owned", "borrowed", "cells-adapter", "cellranges-adapter", "fits-stream", "builder-iter"];
+pub const N_KINDS: u64 = 8;
+pub const KIND_NAMES: [&str; 8] = ["owned", "borrowed", "cells-adapter", "cellranges-adapter", "fits-stream", "builder-iter", "ascii-parsed-borrowed", "json-parsed-borrowed"];
 
 /// Build a source of the given kind over `moc`.
 pub fn make_src<'a, C: Combo>(kind: u64, moc: &'a RangeMOC<C::T, C::Q>) -> BoxIt<'a, C::T, C::Q> {
@@ -140,6 +141,24 @@ pub fn make_src<'a, C: Combo>(kind: u64, moc: &'a RangeMOC<C::T, C::Q>) -> BoxIt
         .to_fits_ivoa(None, None, &mut buf)
         .expect("in-memory FITS write");
       BoxIt::new(C::fits_ranges(buf).expect("in-memory FITS read"))
+    }
+    6 => {
+      // a MOC parsed from ASCII (cells and cell ranges kept in memory), BORROWED and read back as ranges: the
+      // borrowed element iterator advertises an exact size hint (the parsed value is leaked: it must outlive
+      // the boxed iterator)
+      let mut txt: Vec<u8> = Vec::new();
+      moc.into_range_moc_iter().cells().cellranges().to_ascii_ivoa(None, false, &mut txt).expect("in-memory ASCII write");
+      let parsed = moc::deser::ascii::from_ascii_ivoa::<C::T, C::Q>(std::str::from_utf8(&txt).unwrap()).expect("in-memory ASCII read");
+      let leaked: &'static moc::moc::cellcellrange::CellOrCellRangeMOC<C::T, C::Q> = Box::leak(Box::new(parsed));
+      BoxIt::new(leaked.into_cellcellrange_moc_iter().ranges())
+    }
+    7 => {
+      // the same through JSON (cells only)
+      let mut txt: Vec<u8> = Vec::new();
+      moc.into_range_moc_iter().cells().to_json_aladin(None, &mut txt).expect("in-memory JSON write");
+      let parsed = moc::deser::json::from_json_aladin::<C::T, C::Q>(std::str::from_utf8(&txt).unwrap()).expect("in-memory JSON read");
+      let leaked: &'static moc::moc::cell::CellMOC<C::T, C::Q> = Box::leak(Box::new(parsed));
+      BoxIt::new(leaked.into_cell_moc_iter().ranges())
     }
     _ => {
       let cells: Vec<C::T> = moc.flatten_to_fixed_depth_cells().collect();
